@@ -114,10 +114,65 @@ def run(ctx):
             ctx.check(got == {fld}, "D2-MAP", fn, "type=%s" % v, "%s -> self.%s" % (v, fld),
                       "%s entries are stored in / looked up from %s; expected only %s" % (v, sorted(got) if got else got, fld), fn_span(body))
     # classification key = map key
+    upsert_fns = set()
     for fn in ("distinfo::Distinfo::update_size", "distinfo::Distinfo::update_checksum"):
         paths = ctx.paths(fn)
         body = ctx.body(fn)
         if not paths:
+            continue
+        # the get-or-insert spelling: map.entry(name).or_insert_with(|| Entry{filename: name, filetype, ..default}) then update what it returns.
+        # It inserts (at the end: first-appearance order) exactly when the name is new, and the update that follows is the one the existing-entry
+        # arm makes -- so the new-entry and existing-entry rules are decided on the one call and the one update
+        ups = [e for p in ret_paths(paths) for e in p.events if ev_is(e, "Entry::or_insert_with", "Entry::or_insert", "Entry::or_default")]
+        if ups:
+            upsert_fns.add(fn)
+            okall = True
+            why = ""
+            for p in ret_paths(paths):
+                cl = [e for e in p.events if ev_is(e, ET_FROM) or (e.kind == "call" and "EntryType as std::convert::From" in e.name)]
+                okc = bool(cl) and mentions(cl[0].args[0], lambda s: s == ("param", 2))
+                ctx.check(okc, "D2-KEY", fn, "classified-name", "the line's own name is classified", "%s classifies something other than its path argument" % fn, fn_span(body), nontrivial=False)
+
+                def literal_name(t):
+                    return mentions(t, lambda s: s == ("param", 2)) and not mentions(t, lambda s: is_call(s) and (s[1].startswith("distinfo::") or "Path::file_name" in s[1] or "Path::strip_prefix" in s[1] or "Path::ends_with" in s[1]))
+                u = [e for e in p.events if ev_is(e, "Entry::or_insert_with")]
+                en = [e for e in p.events if ev_is(e, "IndexMap::entry")]
+                ok1 = len(u) == 1 and len(en) == 1 and strip_refs(u[0].args[0]) == en[0].term and bool(map_field_of(en[0].args[0])) and literal_name(en[0].args[1])
+                ctx.check(ok1, "D3-LOOKUP", fn, "lookup-by-name", "existing entry looked up by the line's name (map.entry(name))", "%s does not look the entry up by its path argument" % fn, fn_span(body), nontrivial=False)
+                okf = False
+                if ok1:
+                    clo = strip_refs(u[0].args[1])
+                    if isinstance(clo, tuple) and clo[:2] == ("agg", "closure"):
+                        pe = mir.PathEval(ctx.fx, body, inline=ctx.inline_set, desugar=True)
+                        alts = [v for (_, fs, v) in pe._apply(clo, (), 0) if v is not None]
+                        ent = agg_variant(strip_refs(alts[0])) if len(alts) == 1 else None
+                        if ent and ent[0] == "distinfo::Entry":
+                            flds = dict(zip(strip_refs(alts[0])[5], ent[2]))
+                            okf = literal_name(flds.get("filename")) and bool(cl) and strip_refs(flds.get("filetype")) == cl[0].term
+                            # nothing else is pre-set: the update that follows supplies the line's value
+                            for k_, v_ in flds.items():
+                                if k_ not in ("filename", "filetype"):
+                                    okf = okf and (is_call(strip_refs(v_), "Default>::default", "::default") or (isinstance(strip_refs(v_), tuple) and strip_refs(v_)[0] == "field" and is_call(strip_refs(strip_refs(v_)[1]), "Default>::default", "::default")))
+                ctx.check(ok1 and okf, "D3-INSERT", fn, "new-entry", "a new entry is keyed and named by the line's name, typed by its classification, otherwise default (get-or-insert form)",
+                          "%s inserts a new entry whose key/filename/type do not come from the line (or which is pre-filled)" % fn, fn_span(body))
+                # the one update, made on the entry the call returns, unconditionally
+                if ok1:
+                    target = lambda t, u_=u[0]: mentions(t, lambda s_: s_ == u_.term)
+                    if fn.endswith("update_size"):
+                        st_ = [e for e in p.events if e.kind == "store" and mentions(e.place, lambda s_: s_[0] == "field" and s_[3] == "size")]
+                        oku = len(st_) == 1 and unwrap_some(st_[0].value) == ("param", 3) and target(st_[0].place)
+                        what = "size = Some(size)"
+                    else:
+                        pu_ = [e for e in p.events if ev_is(e, "Vec::push") and mentions(e.args[0], lambda s_: s_[0] == "field" and s_[3] == "checksums")]
+                        a_ = agg_variant(pu_[0].args[1]) if len(pu_) == 1 else None
+                        oku = bool(a_) and a_[0] == "distinfo::Checksum" and a_[2] == (("param", 3), ("param", 4)) and target(pu_[0].args[0])
+                        what = "checksums.push(Checksum{digest, hash})"
+                    iu = [i for i, e in enumerate(p.events) if e is u[0]][0]
+                    after = [e for e in p.events[iu + 1:] if e.kind == "cond"]
+                    ctx.check(oku, "D3-APPEND", fn, "existing-entry", "the entry (existing or new): %s" % what, "the entry returned by the get-or-insert is not updated by %s exactly once" % what, fn_span(body))
+                    ctx.check(oku and not after, "D3-ALWAYS", fn, "existing-entry-always-updated", "the update is unconditional",
+                              "%s decides after the lookup whether the line takes effect" % fn, fn_span(body))
+            ctx.floor("D3-INSERT", fn, "insert sites", 1, 1)
             continue
         ins = 0
         for p in ret_paths(paths):
@@ -154,7 +209,7 @@ def run(ctx):
     # in-place update
     fn = "distinfo::Distinfo::update_checksum"
     paths = ctx.paths(fn)
-    if paths:
+    if paths and fn not in upsert_fns:
         body = ctx.body(fn)
         ps = [p for p in ret_paths(paths) if any(ev_is(e, "Vec::push") and mentions(e.args[0], lambda s: s[0] == "field" and s[3] == "checksums") for e in p.events)]
         ok = bool(ps)
@@ -166,7 +221,7 @@ def run(ctx):
                   "an existing entry's checksum list is not extended by push(Checksum{digest, hash}) in place", fn_span(body))
     fn = "distinfo::Distinfo::update_size"
     paths = ctx.paths(fn)
-    if paths:
+    if paths and fn not in upsert_fns:
         body = ctx.body(fn)
         st = [e for p in ret_paths(paths) for e in p.events if e.kind == "store" and mentions(e.place, lambda s: s[0] == "field" and s[3] == "size")]
         ok = bool(st) and all(unwrap_some(e.value) == ("param", 3) and mentions(e.place, lambda s: is_call(s, "IndexMap::get_mut")) for e in st)
@@ -178,7 +233,7 @@ def run(ctx):
                              ("distinfo::Distinfo::update_size", "sets the size",
                               lambda e_: e_.kind == "store" and mentions(e_.place, lambda s_: s_[0] == "field" and s_[3] == "size"))):
         ps_ = ctx.paths(fn)
-        if not ps_:
+        if not ps_ or fn in upsert_fns:
             continue
         body = ctx.body(fn)
         exist = [p for p in ret_paths(ps_) if any(c.term[0] == "discr" and is_call(strip_refs(c.term[1]), "IndexMap::get_mut", "IndexMap::get", "::entry") and
